@@ -23,6 +23,10 @@ import (
 type listDecoder struct{}
 
 func (valdec listDecoder) Decode(dec *Decoder, p interface{}, tag byte) {
+	if !dec.enter() {
+		return
+	}
+	defer dec.leave()
 	plist := (**list.List)(reflect2.PtrOf(p))
 	switch tag {
 	case TagNull:
